@@ -91,7 +91,62 @@ pub struct Families {
     pub crlf_corpus: bool,
     /// seeded: programs of the Luau type-language generator (gen_luau.rs)
     pub luau_rich: bool,
+    /// pinned: collapsible-body templates (header x body statement x expression shape) under every
+    /// collapse_simple_statement value and three widths
+    pub collapse_templates: bool,
+    /// seeded: require-heavy top levels (the C12 generator) with sort_requires on
+    pub req_blocks: bool,
 }
+
+pub const CT_HEADERS: [(&str, &str); 10] = [
+    ("function f() ", " end"),
+    ("local function f() ", " end"),
+    ("local f = function() ", " end"),
+    ("f(function() ", " end)"),
+    ("return function() ", " end"),
+    ("t.x = function(a, b) ", " end"),
+    ("if x then ", " end"),
+    ("if not x then ", " end"),
+    ("if x then\n\t", "\nend"),
+    ("for i = 1, 2 do ", " end"),
+];
+pub const CT_BODIES: [&str; 11] = [
+    "return",
+    "return @",
+    "return @, @",
+    "return (@)",
+    "g(@)",
+    "g(@, @)",
+    "a = @",
+    "local a = @",
+    "a.b:c(@)",
+    "a, b = @, @",
+    "a += @",
+];
+pub const CT_EXPRS: [&str; 22] = [
+    "1",
+    "x",
+    "\"s\"",
+    "nil",
+    "{}",
+    "{ 1, 2 }",
+    "{ k = v }",
+    "function() end",
+    "(function() end)",
+    "function() return 1 end",
+    "g()",
+    "(g())",
+    "a.b.c",
+    "not x",
+    "x and y",
+    "(x and y)",
+    "-x",
+    "[[long]]",
+    "if a then b else c",
+    "x :: T",
+    "some_long_function_name(with_an_argument, and_another_argument)",
+    "`t{x}`",
+];
 
 impl Work {
     pub fn load() -> Self {
@@ -151,6 +206,12 @@ impl Work {
         }
         if fam.luau_rich {
             n += seeded / 2;
+        }
+        if fam.req_blocks {
+            n += seeded / 4;
+        }
+        if fam.collapse_templates && !only_seeded {
+            n += CT_HEADERS.len() * CT_BODIES.len();
         }
         n
     }
@@ -496,7 +557,83 @@ impl Work {
             }
             i -= seeded / 2;
         }
-        if fam.luau_rich && i < seeded / 2 {
+        if fam.luau_rich {
+            if i < seeded / 2 {
+                self.luau_rich_item(fam, ctx, i, f);
+                return;
+            }
+            i -= seeded / 2;
+        }
+        if fam.req_blocks {
+            if i < seeded / 4 {
+                let mut rng = Rng::derive(ctx.seed, 0x4e9, i as u64);
+                let luau = rng.chance(1, 3);
+                let prog = crate::props::c12::program(&mut rng, luau);
+                let syntax: &'static str = if luau { "Luau" } else { rng.pick_s(&["Lua51", "All", "Lua54"]) };
+                let mut c = Cfg::random(&mut rng, syntax, fam.seeded_min_width);
+                c.sort_requires = true;
+                if fam.no_collapse {
+                    c.collapse_simple_statement = "Never";
+                }
+                if !fmt::parses(&prog, &c) {
+                    ctx.count("req.rejected_by_parser");
+                    return;
+                }
+                ctx.count("req.accepted");
+                f(
+                    ctx,
+                    &Eval {
+                        id: format!("req:{}:{}", ctx.seed, i),
+                        src: prog,
+                        cfg: c,
+                        range: None,
+                        pinned: false,
+                        presig: None,
+                    },
+                );
+                return;
+            }
+            i -= seeded / 4;
+        }
+        if fam.collapse_templates && !only_seeded && i < CT_HEADERS.len() * CT_BODIES.len() {
+            let (h0, h1) = CT_HEADERS[i / CT_BODIES.len()];
+            let body = CT_BODIES[i % CT_BODIES.len()];
+            let quick = ctx.quick();
+            for (xi, x) in CT_EXPRS.iter().enumerate() {
+                let b = body.replace('@', x);
+                let src = format!("{h0}{b}{h1}\n");
+                for syntax in ["Lua51", "Luau"] {
+                    for (ci, collapse) in ["Never", "FunctionOnly", "ConditionalOnly", "Always"].iter().enumerate() {
+                        for (wi, w) in [120usize, 40, 24].iter().enumerate() {
+                            if quick && (i + xi + ci + wi) % 4 != 0 {
+                                continue;
+                            }
+                            let mut c = Cfg::with_syntax(syntax);
+                            c.collapse_simple_statement = collapse;
+                            c.column_width = *w;
+                            if !fmt::parses(&src, &c) {
+                                continue;
+                            }
+                            f(
+                                ctx,
+                                &Eval {
+                                    id: format!("ct:{i}:{xi}:{syntax}:{collapse}:w{w}"),
+                                    src: src.clone(),
+                                    cfg: c,
+                                    range: None,
+                                    pinned: true,
+                                    presig: None,
+                                },
+                            );
+                        }
+                    }
+                }
+            }
+        }
+    }
+
+    fn luau_rich_item(&self, fam: &Families, ctx: &mut Ctx, i: usize, f: &mut dyn FnMut(&mut Ctx, &Eval)) {
+        {
             let mut rng = Rng::derive(ctx.seed, 0x17ae, i as u64);
             let prog = crate::gen_luau::program(&mut rng, fam.tame);
             let mut base = Cfg::random(&mut rng, "Luau", fam.seeded_min_width);
